@@ -297,6 +297,7 @@ MUTANTS += [
 # After the second soundness pass (DESIGN.md 10.10) results that share memory with EACH OTHER or with a never-written constant
 # are accepted (a property-preserving variant does exactly that): these edits are controls now.
 for _m in MUTANTS:
-    if _m["id"] in ("c09-r2-new-shared-empty", "c09-r2-new-memo-last-call", "c17-r2-results-adjacent-in-arena"):
+    if _m["id"] in ("c09-r2-new-shared-empty", "c09-r2-new-memo-last-call", "c17-r2-results-adjacent-in-arena",
+                    "c08-r2-fromstr-memo-last-call", "c08-r2-fromstrs-dedup-equal-elements"):
         _m["equivalent"] = True
         _m["note"] = (_m.get("note") or "") + " [control since the relaxation: results sharing memory with each other / a never-written constant are accepted]"
